@@ -122,6 +122,8 @@ type CWorld struct {
 	C     *client.RemoteClient
 	ccfg  client.Config
 	H     [2]*cRec
+	Late  *cRec // a handler the application registers while Run is already going
+	lateFrom int // number of notifications handler 0 had received when the late handler was registered
 	serverKey bitcoin.Key
 	clientKey bitcoin.Key
 	otherKey  bitcoin.Key
